@@ -1,5 +1,6 @@
 import argparse, json, os, shutil, subprocess, sys, time, random
 from vlib import *
+from vlib import _validate_one
 import families
 
 NON_SEMANTIC = {"C05", "C06", "C08", "C09", "C10"}
@@ -21,7 +22,7 @@ def concerns(ev, verdict):
     for p in parts[1:]:
         if p in ("input-modified", "binds-modified"):
             s.add("C07")
-        elif p in ("ast-modified", "string-changed", "not-repeatable"):
+        elif p in ("ast-modified", "string-changed", "not-repeatable", "history-dependent"):
             s.add("C05")
         elif p in ("not-json", "evalbytes-differs", "undefined-mismatch"):
             s.add("C10")
@@ -42,6 +43,14 @@ def run_pipeline(prop, fam, tier, seed, work, jh, specdir, stats):
     cases = os.path.join(work, "cases.ndjson")
     open(cases, "w").close()
     nid = 1
+    stats.setdefault("m_runs", [])
+    for (module, cfg, expect) in fam.get("models", []):
+        t0 = time.time()
+        gen, dist = run_model(specdir, module, cfg, expect)
+        stats["m_states"] = stats.get("m_states", 0) + dist
+        stats["m_transitions"] = stats.get("m_transitions", 0) + gen
+        stats["m_runs"].append({"module": module, "config": cfg, "expected": expect, "distinct_states": dist, "generated": gen, "wall_s": round(time.time() - t0, 1)})
+        log("[%s] design model %s/%s: %s (%d distinct states)" % (prop, module, cfg, "holds" if expect == "hold" else "violates " + expect + " as expected", dist))
     for (module, cfgs) in fam.get("g", []):
         cfg = cfgs[tier]
         t0 = time.time()
@@ -113,6 +122,64 @@ def confirm(prop, fam, work, jh, specdir, evs, failing, cases_path=None):
     verdicts, _, _ = validate(specdir, trace, workers=8)
     return verdicts, load_trace(trace)
 
+def run_histories(prop, fam, tier, seed, work, jh, specdir, stats):
+    """API histories on the real code, validated against the system specification JApi (TraceApi)."""
+    from concurrent.futures import ThreadPoolExecutor
+    cfgh = fam["hist"]
+    nsh = cfgh.get("shards", {"quick": 4, "thorough": 16})[tier]
+    per = cfgh["n"][tier] // nsh
+    def one(k):
+        trace = os.path.join(work, "hist%d.ndjson" % k)
+        r = subprocess.run([jh, "hist", "-seed", str(seed * 100 + k), "-n", str(per), "-tag", "p%d" % os.getpid(), "-out", trace],
+                           capture_output=True, text=True)
+        if r.returncode != 0:
+            raise Infra("history driver failed: " + r.stderr[-2000:])
+        verdicts, gen, dist = _validate_one(specdir, trace, 100 + k, 1, fam.get("tlc_timeout", 3000), "TraceApi")
+        rejected = None
+        with open(os.path.join(specdir, "TraceApi.run%d.out" % (100 + k)), errors="replace") as f:
+            for line in f:
+                if line.startswith('"REJECTED'):
+                    rejected = line.strip()
+        return k, trace, verdicts, gen, dist, rejected
+    results = []
+    with ThreadPoolExecutor(max_workers=min(8, nsh)) as ex:
+        for res in ex.map(one, range(nsh)):
+            results.append(res)
+    fails = []
+    for k, trace, verdicts, gen, dist, rejected in results:
+        if rejected:
+            raise Infra("history trace not fully consumed by the specification: " + rejected)
+        stats["h_states"] = stats.get("h_states", 0) + dist
+        stats["h_transitions"] = stats.get("h_transitions", 0) + gen
+        evs = load_trace(trace)
+        stats["h_events"] = stats.get("h_events", 0) + len(evs)
+        stats["h_histories"] = stats.get("h_histories", 0) + sum(1 for e in evs.values() if e["ev"] == "Reset")
+        stats["h_evals"] = stats.get("h_evals", 0) + sum(1 for e in evs.values() if e["ev"] == "Eval")
+        if k == 0:
+            ids = sorted(evs)
+            first = [evs[i] for i in ids[:14]]
+            stats["h_sample"] = [dict((kk, (cps_to_str(vv) if kk == "src" else plain(vv) if kk in ("val", "inp") else plain_out(vv) if kk == "out" else vv))
+                                      for kk, vv in e.items() if kk not in ("ast", "nmcps", "ast_after")) for e in first]
+        for i, v in sorted(verdicts.items()):
+            if v.startswith("inc"):
+                stats["h_abstained"] = stats.get("h_abstained", 0) + 1
+                if ";" not in v:
+                    continue
+            # the history: from the last Reset up to the failing event
+            j = i
+            while j > 1 and evs[j]["ev"] != "Reset":
+                j -= 1
+            hist = [evs[x] for x in range(j, i + 1)]
+            e = dict(evs[i])
+            e["fam"] = prop
+            src = None
+            for h in hist:
+                if h["ev"] == "Compile" and h.get("e") == e.get("e"):
+                    src = h["src"]
+            e["src"] = src or []
+            fails.append((v, e, hist, k))
+    return fails
+
 def main(argv):
     ap = argparse.ArgumentParser()
     ap.add_argument("prop")
@@ -145,6 +212,7 @@ def main(argv):
             fam["files"] = [rel]
         cases, trace, verdicts = run_pipeline(prop, fam, a.tier, seed, work, jh, specdir, stats)
         evs = load_trace(trace)
+        hfails = run_histories(prop, fam, a.tier, seed, work, jh, specdir, stats) if fam.get("hist") and not a.replay else []
         mine = {}
         inconclusive = skipped = 0
         reasons = {}
@@ -167,6 +235,16 @@ def main(argv):
         known_hits = {}
         if reps:
             cverd, cevs = confirm(prop, fam, work, jh, specdir, evs, reps, cases)
+            # outcomes that depend on Go's map iteration order may need more than one attempt
+            for attempt in range(4):
+                retry = [i for i in reps if cverd.get(i) is None or prop not in concerns(cevs[i], cverd.get(i))]
+                if not retry:
+                    break
+                cv2, ce2 = confirm(prop, fam, work, jh, specdir, evs, retry, cases)
+                for i in retry:
+                    if cv2.get(i) is not None and prop in concerns(ce2[i], cv2[i]):
+                        cverd[i] = cv2[i]
+                        cevs[i] = ce2[i]
             for i in reps:
                 v2 = cverd.get(i)
                 if v2 is None or prop not in concerns(cevs[i], v2):
@@ -188,6 +266,25 @@ def main(argv):
                 else:
                     path = write_replay(prop, a.tier, seed, dict(ce, exp=None), v2, "G" if i <= stats["g_cases"] else "V")
                     violations.append((i, v2, path))
+        # history failures (deterministic for a given seed: the driver is sequential and in-process)
+        hsig = {}
+        for (v, e, hist, k) in hfails:
+            if prop not in concerns(e, v):
+                continue
+            hsig.setdefault(signature(e, v), (v, e, hist))
+        for sg, (v, e, hist) in sorted(hsig.items()):
+            kf = match_known(known, e, v)
+            if kf is not None:
+                known_hits[kf["id"]] = (kf, known_hits.get(kf["id"], (kf, 0))[1] + 1)
+                continue
+            path = write_replay(prop, a.tier, seed, e, v, "V-history")
+            with open(path) as f:
+                rp = json.load(f)
+            rp["history"] = [dict((kk, (cps_to_str(vv) if kk == "src" else vv)) for kk, vv in h.items() if kk not in ("ast", "ast_after", "nmcps")) for h in hist]
+            with open(path, "w") as f:
+                json.dump(rp, f, indent=1, ensure_ascii=False)
+            violations.append((None, v, path))
+            log("   history: %s | last event %s | verdict %s" % (cps_to_str(e.get("src", [])), json.dumps(plain_out(e.get("out")))[:160], v))
         for kid, (k, cnt) in sorted(known_hits.items()):
             print("KNOWN-FINDING: property=%s %s (%d cases in this run)" % (prop, k["what"], cnt))
         for n_v, (i, v, path) in enumerate(violations):
@@ -196,6 +293,8 @@ def main(argv):
             if n_v >= 25:
                 continue
             print("VIOLATION property=%s replay=%s" % (prop, os.path.relpath(path, VERIF)))
+            if i is None:
+                continue
             log("   case: %s | input %s | observed %s | verdict %s" % (cps_to_str(evs[i]["src"]), json.dumps(plain(evs[i]["inp"]))[:200], json.dumps(plain_out(evs[i]["out"]))[:200], v))
         # evidence
         total = len(evs)
@@ -216,9 +315,9 @@ def main(argv):
             samples.append({"program": cps_to_str(e["src"]), "input": plain(e["inp"]), "observed": plain_out(e["out"]),
                             "spec_verdict": verdicts.get(i, "ok"), "direction": "G" if i <= stats["g_cases"] else "V"})
         coverage = {
-            "states": stats["g_states"] + stats["v_states"],
-            "transitions": stats["g_transitions"] + stats["v_transitions"],
-            "traces_validated_against_impl": total,
+            "states": stats["g_states"] + stats["v_states"] + stats.get("h_states", 0) + stats.get("m_states", 0),
+            "transitions": stats["g_transitions"] + stats["v_transitions"] + stats.get("h_transitions", 0) + stats.get("m_transitions", 0),
+            "traces_validated_against_impl": total + stats.get("h_histories", 0),
             "samples": samples,
             "evaluations": total,
             "distinct_nontrivial": len(nontrivial),
@@ -230,6 +329,9 @@ def main(argv):
             "spec_abstained": inconclusive, "abstained_reasons": reasons, "enumerated_trees_parsed_differently": parse_div, "skipped_compile_errors": skipped,
             "lines_not_accepted_for_other_properties": len(verdicts) - inconclusive - skipped - len(mine),
             "known_findings_reproduced": [k["id"] for k, _ in known_hits.values()],
+            "api_histories": {"histories": stats.get("h_histories", 0), "events": stats.get("h_events", 0), "evals": stats.get("h_evals", 0),
+                              "spec_abstained": stats.get("h_abstained", 0), "sample_history": stats.get("h_sample", [])},
+            "design_model_runs": stats.get("m_runs", []),
             "replay_wall_s": stats.get("replay_s"), "validate_wall_s": stats.get("validate_s"),
         }
         if a.replay is None:
